@@ -102,6 +102,14 @@ struct C08 : Scenario {
             if (r.chance(0.5)) alt.push_back(0);
             p.setdlist("pattern2", alt);
             c.padding = 2; c.roundpad = true;
+            // "the RF kick ... transform every bunch exactly as they transform a single bunch": also the dynamic (modulated / noisy) RF
+            // map, whose kick is rebuilt every step; noise comes from the same simulated entropy stream in the train and in the single run
+            if (r.chance(0.35)) {
+                Derived d0 = derive(c);
+                int k = (int)r.range(0, 2);
+                if (k == 0) { c.rf_mod_ampl = std::round(r.uniform(0.05, 2) * 1000) / 1000; c.rf_mod_freq = std::round(d0.fs * r.uniform(0.5, 2)); }
+                else if (k == 1) c.rf_phase_spread = 0.01; else { c.rf_ampl_spread = 1e-3; c.rf_mod_ampl = 0.3; c.rf_mod_freq = std::round(d0.fs); }
+            }
         } else {
             if (c.gap == 0) { c.gap = 0.03; }
             c.renorm = -1;
@@ -289,7 +297,7 @@ struct C08 : Scenario {
         KickMap wk(g1, g2, it, cfg.clamp, KickMap::Axis::y, nullptr);
         std::unique_ptr<SourceMap> rf;
         if (cfg.linearRF) rf.reset(new RFKickMap(g2, g1, d.angle, (float)d.f_RF, it, cfg.clamp, nullptr));
-        else rf.reset(new RFKickMap(g2, g1, (float)d.revolutionpart, (float)d.V_eff, (float)d.f_RF, (float)d.V0, it, cfg.clamp, nullptr));
+        else rf.reset(new RFKickMap(g2, g1, (float)d.revolutionpart, (float)cfg.VRF, (float)d.f_RF, (float)d.V0, it, cfg.clamp, nullptr));   // (the RF voltage itself, not the effective one: fix 99a9e36)
         float a0 = (float)d.alpha0;
         std::vector<meshaxis_t> slip{d.angle, (float)cfg.alpha1 / a0 * d.angle, (float)cfg.alpha2 / a0 * d.angle};
         DriftMap drift(g1, g3, slip, (float)cfg.E0, it, cfg.clamp, nullptr);
